@@ -1194,6 +1194,23 @@ def _x_moveaxis(args, kw):
     return moveaxis(lift(args[0]), args[1], args[2])
 
 
+def _x_broadcast_to(args, kw):
+    """np.broadcast_to for concrete arrays (numpy rules: align trailing axes, extent one stretches)"""
+    a = lift(args[0])
+    shape = kw.get("shape", args[1] if len(args) > 1 else None)
+    if a.sp or a.trail:
+        raise AnalysisError("np.broadcast_to on a symbolic-dimension array")
+    shape = tuple(int(_as_int(x)) for x in shape)
+    src = (1,) * (len(shape) - len(a.shape)) + a.shape
+    if len(src) != len(shape) or any(s_ != 1 and s_ != t_ for s_, t_ in zip(src, shape)):
+        raise Raised("ValueError", f"cannot broadcast {a.shape} to {shape}")
+    data = []
+    for ix in itertools.product(*[range(n) for n in shape]):
+        j = tuple(0 if s_ == 1 else i for i, s_ in zip(ix, src))
+        data.append(a.data[_flat_index(src, j)])
+    return NdArr(shape, data)
+
+
 def _x_swapaxes(args, kw):
     a = lift(args[0])
     i, j = int(_as_int(args[1])) % a.ndim, int(_as_int(args[2])) % a.ndim
@@ -1627,6 +1644,7 @@ ARR_EXT.update(
         "np.array": _x_asarray,
         "np.transpose": _x_transpose,
         "np.swapaxes": _x_swapaxes,
+        "np.broadcast_to": _x_broadcast_to,
         "np.repeat": _x_repeat,
         "np.reshape": _x_reshape,
         "np.squeeze": _x_squeeze,
